@@ -1,6 +1,6 @@
 SPECIFICATION Spec
 CONSTANTS
-  NilSendEOF = FALSE
+  NilSend = "either"
   MaskSkip = TRUE
 INVARIANT Inv
 CONSTRAINT HighWater
